@@ -127,10 +127,13 @@ func (cp *Processor) verifySessionV2(tok sessionv2.Token, v signatureVerificatio
 		return fmt.Errorf("authenticate session token: %w", err)
 	}
 
-	if v.idContainerSet {
-		if !tok.AssertContainer(v.verbV2, v.idContainer) {
-			return errWrongCID
+	// Container creation has no ID yet: zero v.idContainer is matched by wildcard
+	// contexts only, so the verb is asserted in this case too.
+	if !tok.AssertContainer(v.verbV2, v.idContainer) {
+		if !v.idContainerSet {
+			return errWrongSessionVerb
 		}
+		return errWrongCID
 	}
 
 	if tok.OriginalIssuer() != v.ownerContainer {
